@@ -9,6 +9,7 @@ CONSTANTS WChar = 2
  FIX_D10 = TRUE
  MUT = "none"
  Shapes = {"bin","un","cast","cond","asg","test","opasg","incdec","d2l","d2r","d2u"}
+ SanityBin = TRUE
  OpAsgAll = TRUE
  D2Types = {"uchar","int","uint","long","ulong"}
  D2Ops1 = {"add","sub","mul","shl","shr","bor","lt"}
